@@ -41,7 +41,7 @@ func renderCtxFor(c PkgCtx) packages.PackageRenderContext {
 		rc.Config["label"] = c.Label
 	}
 	if c.OpenShift {
-		rc.Environment.OpenShift = &manifests.PackageEnvironmentOpenShift{Version: "v4.13.0"}
+		rc.Environment.OpenShift = &manifests.PackageEnvironmentOpenShift{Version: "4.13.0"}
 	}
 	return rc
 }
